@@ -56,6 +56,19 @@ func shrink(t *testing.T, pr *Prop, p Plan, trace []kernel.Choice, v *Violation,
 				}
 			}
 		}
+		// 1c. drop requests inside pipelines
+		for si := range best.Steps {
+			for i := 0; i < len(best.Steps[si].Pipe) && len(best.Steps[si].Pipe) > 1; {
+				cp := best.Clone()
+				cp.Steps[si].Pipe = append(cp.Steps[si].Pipe[:i:i], cp.Steps[si].Pipe[i+1:]...)
+				if nv, nt, ok := try(cp, bt); ok {
+					best, bt, bv = cp, nt, nv
+					improved = true
+				} else {
+					i++
+				}
+			}
+		}
 		// 2. drop faults
 		for i := 0; i < len(best.Faults); {
 			cp := best.Clone()
@@ -71,7 +84,7 @@ func shrink(t *testing.T, pr *Prop, p Plan, trace []kernel.Choice, v *Violation,
 		for ci := len(best.Conns) - 1; ci >= 1; ci-- {
 			used := false
 			for _, s := range best.Steps {
-				if s.Op != nil && s.Conn == ci {
+				if (s.Op != nil || len(s.Pipe) > 0) && s.Conn == ci {
 					used = true
 				}
 			}
@@ -138,6 +151,10 @@ func shrink(t *testing.T, pr *Prop, p Plan, trace []kernel.Choice, v *Violation,
 					o.Keys = append(o.Keys[:ki:ki], o.Keys[ki+1:]...)
 					if ki < len(o.Quiets) {
 						o.Quiets = append(o.Quiets[:ki:ki], o.Quiets[ki+1:]...)
+					}
+					// keep the request well formed: a quiet batch is closed by GET or NOOP
+					if !o.Noop && len(o.Quiets) > 0 {
+						o.Quiets[len(o.Quiets)-1] = false
 					}
 					if nv, nt, ok := try(cp, bt); ok {
 						best, bt, bv = cp, nt, nv
